@@ -32,29 +32,35 @@ Theorem C12_time_series_equals_fresh : forall n cs stored fr,
 Proof. exact step_equals_fresh_full. Qed.
 Print Assumptions C12_time_series_equals_fresh.
 
-(* histories with diverging steps (continue_on_divergence=True).  G12c: no controller with an initial run, or no recycling;
-   and no batch reading (only_v_results = false).  Then every step that does not diverge solves with fresh parts, every
-   diverging step is reported as failed, and no other step is *)
-Theorem C12_divergence_history_partial : forall divs cs stored fr,
-  G12c cs = true -> Forall (fun c => sound c = true) cs -> fresh fr ->
-  Forall2 step_ok divs (run_steps_div divs cs false stored false fr).
+(* histories with diverging steps (continue_on_divergence=True): for every sequence of diverging / solvable time steps and
+   every set of sound controllers, every solvable step solves with fresh parts, every diverging step is reported as failed
+   and no other step is *)
+Theorem C12_divergence_history : forall divs cs stored fr,
+  Forall (fun c => sound c = true) cs -> fresh fr ->
+  Forall2 step_ok divs (run_steps_div divs cs stored fr).
 Proof. exact run_steps_div_ok. Qed.
-Print Assumptions C12_divergence_history_partial.
+Print Assumptions C12_divergence_history.
 
-(* refuted without G12c: tap controller (initial run) + recyclable ConstControl, one diverging step: the following solvable
-   steps are reported as failed (net._ppc of the diverged initial run is recycled) *)
-Theorem C12_divergence_history_refuted :
+(* before the two divergence repairs this held only under G12c (no controller with an initial run, or no recycling) and
+   without batch reading; regression witnesses: a tap controller + a recyclable ConstControl (the steps after a diverging one
+   were reported as failed), and only_v_results (a diverging recycled step was recorded silently) *)
+Theorem C12_divergence_history_old_partial : forall divs cs stored fr,
+  G12c cs = true -> Forall (fun c => sound c = true) cs -> fresh fr ->
+  Forall2 step_ok divs (run_steps_div_old divs cs false stored false fr).
+Proof. exact run_steps_div_old_ok. Qed.
+Print Assumptions C12_divergence_history_old_partial.
+
+Theorem C12_divergence_history_old_refuted :
   exists cs divs, Forall (fun c => sound c = true) cs /\
-    ~ Forall2 step_ok divs (run_steps_div divs cs false false false all_fresh).
+    ~ Forall2 step_ok divs (run_steps_div_old divs cs false false false all_fresh).
 Proof. exact divergence_poisons_refuted. Qed.
-Print Assumptions C12_divergence_history_refuted.
+Print Assumptions C12_divergence_history_old_refuted.
 
-(* refuted with batch reading (only_v_results): a recycled power flow that does not converge is recorded silently *)
-Theorem C12_divergence_silent_refuted :
+Theorem C12_divergence_silent_old_refuted :
   exists cs divs, G12c cs = true /\ Forall (fun c => sound c = true) cs /\
-    ~ Forall2 step_ok divs (run_steps_div divs cs true false false all_fresh).
+    ~ Forall2 step_ok divs (run_steps_div_old divs cs true false false all_fresh).
 Proof. exact divergence_silent_refuted. Qed.
-Print Assumptions C12_divergence_silent_refuted.
+Print Assumptions C12_divergence_silent_old_refuted.
 
 (* the rule before "fix: ConstControl only claims the recycle flag trafo for transformer parameters" was sound exactly
    on G12a and unsound at (line, length_km): regression witness *)
